@@ -108,7 +108,7 @@ def run_unit(spec):
         gb = "b.gb"
     cb = ["cbmc", gb]
     if spec.get("unwind"):
-        cb += ["--unwind", str(spec["unwind"]), "--unwinding-assertions"]
+        cb += ["--unwind", str(spec["unwind"]), "--unwinding-assertions", "--object-bits", "12"]
     be = spec.get("backend", "sat")
     if be == "cvc5":
         cb += ["--cvc5"]
